@@ -860,6 +860,59 @@ def check_copy_eq(res, ctx):
 
 
 # ---------------------------------------------------------------------- WCS --
+EXTREME = [1e-200, 1e-170, 3.0, 1e160, 1e200]
+
+
+def _sep_ref_scaled(dx, dy):
+    """Euclidean length of (dx, dy) without overflow / underflow: exact scaling by a power of two."""
+    m = max(abs(dx), abs(dy))
+    if m == 0:
+        return 0.0
+    k = math.frexp(m)[1]
+    fx, fy = Fraction(dx) / Fraction(2) ** k, Fraction(dy) / Fraction(2) ** k
+    return math.ldexp(math.sqrt(fx * fx + fy * fy), k)
+
+
+def check_sep_extreme(res, only=None):
+    """separation for coordinate differences of extreme magnitude (the Euclidean distance is representable although
+    the squares of the differences are not): full product of |dx| x |dy| x signs, scalars and arrays."""
+    from regions import PixCoord
+    pairs = [(sx * dx, sy * dy) for dx in EXTREME for dy in EXTREME for sx in (1, -1) for sy in (1, -1)]
+    base = (0.5, -0.25)
+    for form in ('scalar', 'array'):
+        case = {'op': 'sep_extreme', 'sx': [], 'sy': [], 'kind': 'f8', 'form': form}
+        res.evaluations += 1
+        res.states += 1
+        if form == 'scalar':
+            for dx, dy in pairs:
+                bx, by = base[0] + dx, base[1] + dy
+                want = _sep_ref_scaled(bx - base[0], by - base[1])
+                ok, r = _call(res, lambda: PixCoord(base[0], base[1]).separation(PixCoord(bx, by)))
+                res.transitions += 1
+                if not ok:
+                    _V(res, 'unexpected_exception', case, f'separation to ({bx!r}, {by!r}) raised {_ex(r)}')
+                elif not (abs(float(r) - want) <= 4 * _ulp(want)):
+                    _V(res, 'separation_wrong', {**case, 'd': [dx, dy]},
+                       f'separation of ({base[0]}, {base[1]}) and ({bx!r}, {by!r}) = {float(r)!r}, Euclidean distance {want!r}', want, float(r))
+                    break
+        else:
+            bx = np.array([base[0] + d[0] for d in pairs])
+            by = np.array([base[1] + d[1] for d in pairs])
+            want = [_sep_ref_scaled(float(x) - base[0], float(y) - base[1]) for x, y in zip(bx, by)]
+            ok, r = _call(res, lambda: PixCoord(bx, by).separation(PixCoord(base[0], base[1])))
+            res.transitions += 1
+            if not ok:
+                _V(res, 'unexpected_exception', case, f'separation of an array of extreme coordinates raised {_ex(r)}')
+            else:
+                g = np.asarray(r, float).ravel().tolist()
+                for k, (gv, ev) in enumerate(zip(g, want)):
+                    if not (abs(gv - ev) <= 4 * _ulp(ev)):
+                        _V(res, 'separation_wrong', case, f'separation[{k}] for difference {pairs[k]!r} = {gv!r}, Euclidean distance {ev!r}', ev, gv)
+                        break
+        res.nontriv(('sep_extreme', form))
+        res.outcome(('sep_extreme', form))
+
+
 _WCS_CACHE = {}
 
 
@@ -868,7 +921,7 @@ def wcs_specs(tier):
     for proj in ('TAN', 'SIN', 'CAR'):
         for rot in (0.0, 30.0, 137.0):
             for cdelt in (1e-4, 0.01):
-                for ctype in ('RA/DEC', 'GLON/GLAT'):
+                for ctype in ('RA/DEC', 'GLON/GLAT', 'DEC/RA', 'GLAT/GLON'):
                     for crval in ([40.0, 20.0], [266.0, -29.0]):
                         lin.append({'proj': proj, 'rot': rot, 'cdelt': cdelt, 'ctype': ctype, 'crval': crval,
                                     'sip': False})
@@ -880,6 +933,9 @@ def wcs_specs(tier):
         return [pick(proj='TAN', rot=30.0, cdelt=1e-4, ctype='RA/DEC', crval=[266.0, -29.0]),
                 pick(proj='SIN', rot=137.0, cdelt=0.01, ctype='GLON/GLAT', crval=[40.0, 20.0]),
                 pick(proj='CAR', rot=0.0, cdelt=0.01, ctype='RA/DEC', crval=[40.0, 20.0]),
+                # latitude on the first pixel axis
+                pick(proj='TAN', rot=137.0, cdelt=1e-4, ctype='DEC/RA', crval=[40.0, 20.0]),
+                pick(proj='SIN', rot=30.0, cdelt=0.01, ctype='GLAT/GLON', crval=[266.0, -29.0]),
                 sip[0]]
     return lin + sip
 
@@ -891,13 +947,16 @@ def build_wcs(spec):
     from astropy.wcs import WCS, Sip
     w = WCS(naxis=2)
     suffix = '-SIP' if spec['sip'] else ''
-    if spec['ctype'] == 'RA/DEC':
-        w.wcs.ctype = ['RA---' + spec['proj'] + suffix, 'DEC--' + spec['proj'] + suffix]
+    names = {'RA': 'RA---', 'DEC': 'DEC--', 'GLON': 'GLON-', 'GLAT': 'GLAT-'}
+    a1, a2 = spec['ctype'].split('/')
+    w.wcs.ctype = [names[a1] + spec['proj'] + suffix, names[a2] + spec['proj'] + suffix]
+    if a1 in ('DEC', 'GLAT'):       # the latitude is the first world axis
+        w.wcs.crval = [spec['crval'][1], spec['crval'][0]]
+        w.wcs.cdelt = [spec['cdelt'], -spec['cdelt']]
     else:
-        w.wcs.ctype = ['GLON-' + spec['proj'] + suffix, 'GLAT-' + spec['proj'] + suffix]
-    w.wcs.crval = list(spec['crval'])
+        w.wcs.crval = list(spec['crval'])
+        w.wcs.cdelt = [-spec['cdelt'], spec['cdelt']]       # standard parity
     w.wcs.crpix = [50.0, 60.0]
-    w.wcs.cdelt = [-spec['cdelt'], spec['cdelt']]       # standard parity
     r = math.radians(spec['rot'])
     w.wcs.pc = [[math.cos(r), -math.sin(r)], [math.sin(r), math.cos(r)]]
     w.wcs.cunit = ['deg', 'deg']
@@ -962,6 +1021,8 @@ def check_wcs(res, ctx, wspecs, origins, modes):
                 if n:
                     fn = w.all_pix2world if m == 'all' else w.wcs_pix2world
                     rl, rb = fn(FX - o, FY - o, 0)
+                    if w.wcs.lng == 1:       # world axes in (lat, lon) order
+                        rl, rb = rb, rl
                     d = _sky_diff_arcsec(lon, lat, rl.tolist(), rb.tolist())
                     if not (d <= SKY_TOL_ARCSEC):
                         _V(res, 'to_sky_wrong', case,
@@ -1031,6 +1092,7 @@ def shards(tier, seed):
     for sx in SHAPES:
         for sy in SHAPES:
             out.append({'kind': 'core', 'sx': list(sx), 'sy': list(sy)})
+    out.append({'kind': 'sep_extreme', 'sx': [], 'sy': []})
     for sx in SHAPES:
         for sy in SHAPES:
             if bshape(sx, sy) is None:
@@ -1074,6 +1136,8 @@ def run_shard(shard, tier, seed):
                 check_wcs(res, ctx, W, [0, 1], ['all', 'wcs'])
                 for ws in W:
                     res.axis('wcs_proj', ws['proj'] + ('-SIP' if ws['sip'] else ''))
+        elif shard['kind'] == 'sep_extreme':
+            check_sep_extreme(res)
         else:
             raise ValueError(shard['kind'])
     return res
@@ -1104,6 +1168,8 @@ def replay(case):
             check_copy_eq(res, ctx)
         elif op == 'wcs':
             check_wcs(res, ctx, [case['wcs']], [case['origin']], [case['mode']])
+        elif op == 'sep_extreme':
+            check_sep_extreme(res)
         else:
             raise ValueError(op)
     return res
